@@ -123,6 +123,7 @@ func (v Val) Int() int64 {
 type ZInner struct {
 	A    int
 	b    string //nolint:unused
+	B    string // exported twin of b: a name is case-sensitive
 	Any  any
 	List []string
 }
@@ -130,6 +131,7 @@ type ZInner struct {
 type ZS struct {
 	Name  string
 	priv  string //nolint:unused
+	Priv  string // exported twin of priv
 	In    ZInner
 	PIn   *ZInner
 	Nilp  *ZInner
